@@ -43,7 +43,7 @@ for k in kf:
     n = n[0] if n else ''
     chk, v = res.get(n, ('?', 'not run'))
     frows.append('| %s | %s | %s | %s | %s (%s) |' % (k['commit'], k['property'], k['what'], n, v, chk))
-caught = sum(1 for n in names if res.get(n, ('', ''))[1] == 'caught')
+caught = sum(1 for n in names if res.get(n, ('', ''))[1].startswith('caught'))
 missed = [n for n in names if res.get(n, ('', ''))[1] == 'MISSED']
 summary = '\n\n%d of %d stored changes are caught by the quick check of their property; missed: %s.' % (caught, len([n for n in names if n in res]), ', '.join(missed) or 'none')
 s = open(os.path.join(V, 'DESIGN.md')).read()
